@@ -133,6 +133,13 @@ def run_job(job):
     from dsim import configs
     kind = job["kind"]
     out = []
+    if kind == "genbench_unseeded":
+        for _ in range(2):
+            np.random.seed(job["np_seed"])
+            scen = configs.guarded_generate(nasim.make_benchmark_scenario,
+                                            job["name"])
+            out.append(fingerprint(scen))
+        return out
     if kind in ("gen", "genbench"):
         for _ in range(2):
             if kind == "gen":
@@ -157,6 +164,10 @@ def run_job(job):
         for rep in range(2):
             scen, _ = configs.build(spec)
             env = NASimEnv(scen, **modes)
+            if job.get("reset_seed") is not None:
+                # the Gymnasium way of seeding the environment's own stream;
+                # the trajectory below is driven by numpy's global generator
+                env.reset(seed=job["reset_seed"])
             out.append(trajectory(env, job["np_seed"], job["plan_seed"],
                                   job["steps"]))
         env.reset()
